@@ -15,7 +15,7 @@ EXPLANATION = (
     "credit counters are decremented by one; capacity exhaustion closes the sender end only; (R3) add_capacity uses checked_add and its overflow edge "
     "reaches remove_channel_end(Receiver) and nothing else; (R4) peer notifications are dominated by close()->Some / claim->Ok and the channel is removed "
     "(gauge decremented) exactly on the remove edge; (R5) on the client, every site that takes a capacity grant out of the sender's queue adds it to the sender's credit before "
-    "polling again. NOT decided (the larger part of the property): credit arithmetic over unbounded histories, in-order "
+    "polling again; (R6) wherever the broker computes credit to announce to the sender it also records it (sender credit := receiver credit) on that path. NOT decided (the larger part of the property): credit arithmetic over unbounded histories, in-order "
     "exactly-once delivery, client-side replenishment."
 )
 
@@ -226,6 +226,7 @@ def run(rep):
 
     if not rep.matrix:
         r5_client_credit(rep)
+    r6_announced_is_credited(rep, prog)
 
     # ---- R4 notifications / removal -----------------------------------------------------------------------
     re_ = M["remove_channel_end"]
@@ -275,3 +276,66 @@ def r5_client_credit(rep):
             ok = bool(stores) and not (set(c.bb for c in pn) & r_) and not (set(b.exits()) & r_)
             rep.check(ok, "C05-R5", d, "grant-credited", "a capacity grant taken out of the queue must be added to self.capacity before the queue is polled again or the function returns; a dropped grant makes a compliant sender stall for ever", line=b.span, detail={"stores": len(stores)})
     rep.floor("C05-R5", "sites that take grants out of the sender's queue", n, 2)
+
+
+def field_of_binding(b, local, depth=6):
+    """'sender.capacity' / 'receiver.capacity' for a pattern binding (`capacity: ref mut x`) of self's channel ends"""
+    out = set()
+    if depth <= 0:
+        return out
+    for ent in b.defs().get(local, []):
+        if ent[0] != "stmt" or len(ent[3]["d"]) != 1:
+            continue   # stores THROUGH the reference are not definitions of the binding
+        r = ent[3]["r"]
+        if r["k"] in ("ref", "rawptr"):
+            p = r["p"]
+            names = [e[1:] for e in p[1:] if isinstance(e, str) and e.startswith(".")]
+            if p[0] == 1 and len(names) >= 2:
+                out.add("%s.%s" % (names[0], names[-1]))
+            elif p[0] != 1:
+                out |= field_of_binding(b, p[0], depth - 1)
+        elif r["k"] in ("use", "cast") and mir.op_place(r["o"][0]) is not None:
+            q = mir.op_place(r["o"][0])
+            if len(q) >= 2 and isinstance(q[1], str) and q[1].startswith(".") and q[1][1:].isdigit():
+                # field of a tuple built from the bindings: (receiver, receiver_capacity)
+                for e2 in b.defs().get(q[0], []):
+                    if e2[0] == "stmt" and e2[3]["r"]["k"] == "agg" and e2[3]["r"].get("ak") == "tuple":
+                        o = e2[3]["r"]["o"][int(q[1][1:])]
+                        qq = mir.op_place(o)
+                        if qq is not None:
+                            out |= field_of_binding(b, qq[0], depth - 1)
+            else:
+                out |= field_of_binding(b, q[0], depth - 1)
+    return out
+
+
+def r6_announced_is_credited(rep, prog):
+    """whenever the broker announces held-back credit to the sender (the difference receiver credit - sender credit), it
+    records it: the sender's credit is set to the receiver's on that path; otherwise the same credit is announced again and
+    again while the broker's own count of the sender's credit runs out"""
+    n = 0
+    for fn in ("send_item", "add_capacity"):
+        b = prog.one("^" + re.escape(CH + fn) + "$")
+        diffs = []
+        for bb_ in [b] + prog.closures_of(b.def_):
+            for i in sorted(bb_.live_blocks()):
+                for st in bb_.blocks[i]["s"]:
+                    r = st["r"]
+                    if r["k"] == "bin" and r["op"].startswith("Sub") and all(mir.op_place(o) is not None for o in r["o"]):
+                        f0 = field_of_binding(bb_, mir.op_place(r["o"][0])[0]) if bb_ is b else {"?closure"}
+                        f1 = field_of_binding(bb_, mir.op_place(r["o"][1])[0]) if bb_ is b else {"?closure"}
+                        if (f0 == {"receiver.capacity"} and f1 == {"sender.capacity"}) or bb_ is not b:
+                            diffs.append((bb_, i))
+        stores = []
+        for i in sorted(b.live_blocks()):
+            for st in b.blocks[i]["s"]:
+                if st["d"][-1:] == ["*"] and st["r"]["k"] == "use" and mir.op_place(st["r"]["o"][0]) is not None:
+                    if field_of_binding(b, st["d"][0]) == {"sender.capacity"} and field_of_binding(b, mir.op_place(st["r"]["o"][0])[0]) == {"receiver.capacity"}:
+                        stores.append(i)
+        main = [i for (bb_, i) in diffs if bb_ is b]
+        inclosure = [1 for (bb_, i) in diffs if bb_ is not b]
+        n += len(main)
+        ok = bool(stores) and not inclosure and bool(main) and all(not (set(b.exits()) & b.reachable(d_, without_nodes=set(stores))) for d_ in main)
+        rep.check(ok, "C05-R6", b.def_, "announced-credit-is-recorded", "%s computes the credit to announce (receiver credit - sender credit) but does not set the sender's credit to the receiver's on every such path: the grant would be announced again on the next item while the broker's count of the sender's credit runs out" % fn,
+                  line=b.span, detail={"diff_sites": len(main), "in_closures": len(inclosure), "equalising_stores": len(stores)})
+    rep.floor("C05-R6", "announce computations", n, 2)
